@@ -61,10 +61,11 @@ def mc_configs(tier: str) -> list[tuple[str, dict]]:
     ]
     if tier == "thorough":
         cfgs += [
-            ("n5_ar2_seq_transform", dict(MaxN=5, Families='{"transform"}')),
+            ("n5_ar2_seq_transform", dict(MaxN=5, Families='{"transform"}', ChgSet="{0, 1}")),
             ("n5_ar2_seq_other", dict(MaxN=5, Families='{"combine", "walk"}')),
             ("n4_ar3_seq", dict(MaxN=4, MaxAr=3, ChgSet="{0, 1}")),
-            ("n5_ar2_anyorder", dict(MaxN=5, AnyOrder="TRUE", ChgSet="{0}")),
+            ("n5_ar2_anyorder", dict(MaxN=5, AnyOrder="TRUE", ChgSet="{0}",
+                                     Families='{"transform"}', ErrDups="{TRUE}")),
             ("n4_ar2_extra", dict(MaxN=4, Extras="{TRUE}", ChgSet="{0, 1}",
                                   ErrDups="{TRUE}")),
         ]
@@ -78,7 +79,7 @@ def run_mc(tier: str) -> list[dict]:
     def one(nc: tuple[str, dict]) -> dict:
         name, c = nc
         res = tlc.run_tlc("PtMapper", write_cfg(name, **c), workers=per,
-                          timeout=1500 if tier == "thorough" else 240,
+                          timeout=1700 if tier == "thorough" else 400,
                           heap="6g" if tier == "thorough" else "3g", coverage=True)
         if not res.ok:
             raise MachineryError(
@@ -678,7 +679,9 @@ def selftest(tier: str) -> int:
     sab = [("OncePerKey", "  /\\ ~(V.cached /\\ KeyOf(n, x) \\in DOMAIN cache)", "  /\\ TRUE"),
            ("CollisionReported", "  /\\ V.errcol => cexpr[KeyOf(n, x)] = n", "  /\\ TRUE"),
            ("ResultsDeduplicated", "Stored(raw, rawcl) == IF InPool(rawcl) THEN pool[rawcl] ELSE raw",
-            "Stored(raw, rawcl) == raw")]
+            "Stored(raw, rawcl) == raw"),
+           ("DuplicateReported", "     IF V.errdup /\\ IsCreatedDup(f, raw, rawcl, fsame)",
+            "     IF FALSE")]
     d = os.path.join(scratch(), "sab")
     os.makedirs(d, exist_ok=True)
     for inv, old, new in sab:
